@@ -76,6 +76,13 @@ pub fn history_cfg(w: usize) -> SpaceCfg {
     c
 }
 
+/// character data in its degenerate forms: text, white-space-only text and empty CDATA sections
+pub fn chardata_cfg(w: usize) -> SpaceCfg {
+    let mut c = SpaceCfg::plain(w);
+    c.kinds = vec![Kind::Text, Kind::Ws, Kind::CDataEmpty];
+    c
+}
+
 /// three element names and three attribute names: several siblings appear / disappear together
 pub fn wide_cfg(w: usize) -> SpaceCfg {
     let mut c = SpaceCfg::plain(w);
